@@ -342,6 +342,111 @@ def pair(task):
     return acc
 
 
+def pair2(task):
+    """preemption bound 2 (A | B | A | B): A runs to its point i, B runs in a second thread to its point j and is parked, A completes, B completes"""
+    an, bn, warm, capa, capb, k, solo_vals, only, only_j = task
+    import a5
+    prefix = os.path.dirname(os.path.realpath(a5.__file__)) + os.sep
+    menu = build_menu(k)
+    acc = common.Acc()
+    if warm:
+        for name in sorted(menu):
+            menu[name]()
+    import gc
+    gc.collect()
+    gc.freeze()
+    gc.disable()
+    ex = sched.Explorer2(prefix, b_cap=capb)
+    want_probe = solo_vals['<probe>']
+    ex.after = lambda: sched.call_value(lambda: probe_values(k)) == want_probe
+    if capa is not None:
+        ex.occ_total = ex.count_sites(menu[an])
+        ex.occ_cap = capa
+    res = ex.explore(menu[an], menu[bn], only, only_j)
+    temp = 'warm' if warm else 'cold'
+    base = f'{an}|{bn}|{temp}|2p'
+    if ex.solo_a != solo_vals[an]:
+        acc.violation(f'c16:harness:{base}', f'A alone under the monitor returned a value different from the pristine single call ({temp})',
+                      {'A': an, 'B': bn, 'warm': warm, 'two': True, 'k': 0, 'j': 0})
+    bad = 0
+    sites = set()
+    for i, site, j, bsite, va, vb in res:
+        acc.n['states'] += 1          # a state = (pair, point of A, point of B)
+        acc.n['transitions'] += 4     # A -> B -> A -> B
+        acc.n['two_preemption_schedules'] += 1
+        case = {'A': an, 'B': bn, 'warm': warm, 'two': True, 'k': i, 'j': j, 'site': list(site), 'bsite': list(bsite) if bsite else None,
+                'capa': list(capa) if capa else None, 'capb': (capb if isinstance(capb, str) else list(capb)) if capb else None}
+        if va == 'blocked':
+            acc.n['blocked'] += 1
+            continue
+        sites.add((site, bsite))
+        skey = f'c16:2p:{an}|{bn}|{temp}:{site[0]}:{site[1]}:{site[2]}/{bsite[0]}:{bsite[1]}:{bsite[2]}'
+        where = f'{an} suspended at {site[0]}:{site[2]} ({site[1]}), {bn} run up to {bsite[0]}:{bsite[2]} ({bsite[1]}) and suspended, {an} completed, {bn} completed'
+        if va == 'crash':
+            acc.violation(skey + ':crash', f'interpreter died: {where}', case)
+            bad += 1
+            continue
+        if va != solo_vals[an]:
+            what = 'raised ' + va[1] if va[0] == 'exc' else 'returned a different value'
+            acc.violation(skey + ':A', f'{where}: {an} {what}', case)
+            bad += 1
+            continue
+        probe = None
+        if isinstance(vb, tuple) and len(vb) == 3 and vb[0] == 'with-probe':
+            vb, probe = vb[1], vb[2]
+        if isinstance(vb, tuple) and len(vb) == 2 and vb[0] == 'not-parked':
+            acc.n['b_not_parked'] += 1      # B took another path than in its sequence run and never reached event j: the schedule degenerated to one preemption
+            vb = vb[1]
+        if vb != solo_vals[bn]:
+            what = 'raised ' + vb[1] if vb[0] == 'exc' else 'returned a different value'
+            acc.violation(skey + ':B', f'{where}: {bn} {what}', case)
+            bad += 1
+            continue
+        if probe is not None and probe != ('ok', True):
+            what = 'raised ' + probe[1] if probe[0] == 'exc' else 'returned different values'
+            acc.violation(skey + ':after', f'{where}: both returned correct values, but later single-threaded calls {what}', case)
+            bad += 1
+            continue
+        acc.n['validated'] += 1
+    acc.strata[f'2p:{an}|{bn}'] += len(res)
+    acc.n['bad_points'] += bad
+    acc.n['two_preemption_site_pairs'] += len(sites)
+    acc.n['two_preemption_skipped_by_caps'] += ex.pairs_skipped_by_b_cap
+    acc.pair_info = (base, len(res), len(sites), bad)
+    acc.sites = set()
+    return acc
+
+
+def two_preemption_tasks(tier, k, solo_vals):
+    """(A, B, warm, cap on A's occurrences, cap on B's occurrences, residue classes)"""
+    if tier == 'quick':
+        plan = [('scalars', 'scalars_b', False, None, None, 2),
+                ('uncompact', 'uncompact_low', False, (1, 0), (1, 0), 2),
+                ('compact', 'compact', False, (1, 0), (1, 0), 2),
+                ('cell_to_lonlat', 'cell_to_lonlat_r4', True, (1, 0), 'func', 16)]
+    else:
+        plan = [('scalars', 'scalars_b', False, None, None, 2),
+                ('scalars_b', 'scalars', False, None, None, 2),
+                ('scalars', 'scalars_c', False, None, None, 1),
+                ('uncompact', 'uncompact_low', False, (2, 1), (2, 1), 8),
+                ('uncompact_low', 'uncompact', False, (2, 1), (2, 1), 8),
+                ('compact', 'compact', False, (2, 1), (2, 1), 8),
+                ('compact', 'uncompact', False, (1, 0), (1, 0), 4),
+                ('children_parent', 'uncompact_low', False, (1, 0), (1, 0), 4),
+                ('hilbert_a', 'hilbert_b', False, (1, 0), (1, 0), 16),
+                ('cell_to_lonlat', 'cell_to_lonlat_r4', True, (2, 1), (2, 1), 32),
+                ('cell_to_lonlat', 'cell_to_lonlat_r4', False, (1, 0), (1, 0), 32),
+                ('cell_to_lonlat_r4', 'cell_to_lonlat', False, (1, 0), (1, 0), 32),
+                ('cell_to_lonlat', 'boundary_closed_seg1', False, (1, 0), (1, 0), 32),
+                ('boundary_closed_seg1', 'cell_to_lonlat', False, (1, 0), (1, 0), 32),
+                ('cell_to_lonlat_r29_centre', 'cell_to_lonlat', True, (1, 0), (1, 0), 32)]
+    tasks = []
+    for an, bn, warm, ca, cb, m in plan:
+        for i in range(m):
+            tasks.append((an, bn, warm, ca, cb, k, solo_vals, (m, i) if m > 1 else None, None))
+    return tasks
+
+
 def run(tier, t0, only_pairs=None):
     global CAP
     CAP = (6, 2) if tier == 'quick' else None
@@ -423,6 +528,15 @@ def run(tier, t0, only_pairs=None):
             raise part
         acc.merge(part)
     acc.notes.append('phase explore %.1fs' % (_t.time() - _t0))
+    # ---- preemption bound 2: A | B | A | B on the short calls
+    t2 = two_preemption_tasks(tier, k, solo_vals)
+    for _, part in common.fresh_map(pair2, t2, timeout=3600):
+        if isinstance(part, Exception):
+            raise part
+        if part.pair_info[3]:
+            acc.notes.append('%s: %d schedules, %d site pairs, %d bad' % part.pair_info)
+        acc.merge(part)
+    acc.notes.append('phase two-preemption %.1fs' % (_t.time() - _t0))
     # determinism: one recorded point explored twice more, in two fresh processes, must give the same observation
     probe = ('lonlat_to_cell_r7_edge', 'boundary_seg2_edge', False, 'line', k, solo_vals, [5, 60, 137])
     r1 = one(pair, probe)
@@ -436,9 +550,9 @@ def run(tier, t0, only_pairs=None):
     acc.sample({'shared_cache_slots [all, reflected] per geometric pair': k.get('shared_slots')})
     acc.sample({'some_sites': sorted(allsites)[:5]})
     rule = (f'{len(tasks)} explorations over {len(A)} calls A and {len(B)} calls B (cold and warm library): every line event of A inside the a5 package is a preemption point at which B runs to completion in a real second thread '
-            '(thorough: every menu call as A x 12 calls B, cold and warm, every occurrence, plus every bytecode instruction for the short calls); after every schedule a fixed set of probe calls is made single-threaded; a short pair is also explored at cache fill levels 0, 8, 16, .. and every power of two / round number +-1 (thorough: every level 0..239); a state is (pair, temperature, point); non-trivial counts distinct (file, function, line) sites per pair')
+            '(thorough: every menu call as A x 12 calls B, cold and warm, every occurrence, plus every bytecode instruction for the short calls); after every schedule a fixed set of probe calls is made single-threaded; a short pair is also explored at cache fill levels 0, 8, 16, .. and every power of two / round number +-1 (thorough: every level 0..239); preemption bound 2 on the short calls: A suspended at i, B suspended at j, A completes, B completes, for every (i, j) within the stated occurrence caps; a state is (pair, temperature, point[, point of B]); non-trivial counts distinct (file, function, line) sites per pair')
     return common.finish(PID, LEVEL, tier, acc, t0, rule, [
-        'context bound 2 (one preemption of A by a complete B, both role assignments); two or more preemptions and free-threaded memory effects are not explored',
+        'one preemption (A suspended at a point, a complete B, A resumes; both role assignments) for every pair; preemption bound 2 (A | B | A | B: B is itself suspended at its point j while A completes) for the short calls listed in two_preemption_tasks (counters.two_preemption_schedules), with every point of A and B for the scalar calls and the first (thorough: first 2 / last 1) occurrence of every line site otherwise (quick, geometric pair: B is suspended at the first line of every function it runs); three or more preemptions and free-threaded memory effects are not explored',
         'quick tier: of the dynamic occurrences of one line site (same file, function, line) inside A only the first 6 and the last 2 are preemption points (counters.points_skipped_by_occurrence_cap); the thorough tier explores every occurrence',
         'values compared bit-for-bit (floats by hex) with the same call run alone in a process forked from a pristine import',
         'a child that does not finish within 10 s counts as blocked (a schedule a lock would forbid), never as a violation',
@@ -469,5 +583,9 @@ def replay(case):
         return []
     names = sorted(build_menu(k))
     solo_vals = dict(one(solo, (n, k)) for n in names + ['<probe>'])
+    if case.get('two'):
+        part = one(pair2, (case['A'], case['B'], case['warm'], tuple(case['capa']) if case.get('capa') else None, (case['capb'] if isinstance(case.get('capb'), str) else tuple(case['capb'])) if case.get('capb') else None,
+                           k, solo_vals, [case['k']] if case['k'] else None, [case['j']] if case['j'] else None))
+        return [(kk, w) for kk, w, _ in part.violations]
     part = one(pair, (case['A'], case['B'], case['warm'], case['gran'], k, solo_vals, [case['k']] if case['k'] else None))
     return [(kk, w) for kk, w, _ in part.violations]
